@@ -44,6 +44,10 @@ def hash_class(name: str):
         def f(it, k):
             return Sc(1 + (k.val << 20), 'u64') if isinstance(k.val, int) else Sc(z3.BitVecVal(1, 64) + (z3.ZeroExt(64 - KEY_W, k.val) << 20), 'u64')
         return f, (lambda keys: [])
+    if name == 'twohash':       # two full hashes that differ exactly in the bit a 64 -> 128 resize splits on; half of the keys each
+        def f(it, k):
+            return Sc(1 + ((k.val & 1) << 6), 'u64') if isinstance(k.val, int) else Sc(z3.BitVecVal(1, 64) + ((z3.ZeroExt(64 - KEY_W, k.val) & 1) << 6), 'u64')
+        return f, (lambda keys: [])
     if name == 'mixed':         # one bin, four full hashes: keys with equal k & 3 share their whole hash, the classes differ (partial collisions)
         def f(it, k):
             return Sc(1 + ((k.val & 3) << 20), 'u64') if isinstance(k.val, int) else Sc(z3.BitVecVal(1, 64) + ((z3.ZeroExt(64 - KEY_W, k.val) & 3) << 20), 'u64')
@@ -363,6 +367,14 @@ class Finding:
     trace: List[str]
 
 
+_KEY_CMP = re.compile(r'^<&*[KQT] as (PartialEq|Ord|PartialOrd)>::(eq|ne|cmp|partial_cmp)$')
+
+
+def key_comparisons(it) -> int:
+    """number of user key comparisons (Eq / Ord on K, Q, through any number of references) the interpreter has performed"""
+    return sum(v for k, v in it.modelled.items() if _KEY_CMP.match(k))
+
+
 class Runner:
     """runs one scenario over all its paths"""
 
@@ -567,6 +579,7 @@ class Runner:
                 try:
                     self.do_op(it, d, orc, op, tag, vcount, cb_count, handed, trace)
                 except Unwind as u:
+                    it.panicking = False          # the caller caught the panic
                     if sc.panic_at is not None and 'injected' in u.msg:
                         panicked = True
                         trace.append('  -> closure panicked (injected), unwound to the caller')
@@ -796,7 +809,7 @@ class Runner:
                     if r is not None:
                         raise Mismatch('compute_if_present returned %r after a removal' % (r,))
                     orc.entries.remove(e)
-        elif kind in ('retain_replace', 'retain_force_replace'):
+        elif kind in ('retain_replace', 'retain_force_replace', 'retain_replace_grow', 'retain_force_replace_grow'):
             # the predicate replaces the value of the first entry it inspects (through the real insert) and then rejects it;
             # every other entry is kept.  retain must keep the replaced entry, retain_force must remove it.
             seen = []
@@ -814,10 +827,18 @@ class Runner:
                         raise Mismatch('re-entrant insert from the predicate returned %r, expected the inspected value' % (old,))
                     e.vtok = nv
                     state['e'] = e
+                    if kind.endswith('_grow'):
+                        # the same writer also grows the map: by the time of the removal the table has been swapped
+                        for j in range(6):
+                            gk = Tok('K', 100 + j, tag + 'g%d' % j, L)
+                            gv = Tok('V', next(vcount), None, L)
+                            if d.insert(gk, gv) is not None:
+                                raise Mismatch('insert of a fresh key from the predicate returned a previous value')
+                            orc.entries.append(Entry(gk, gv))
                     return Sc(False, 'bool')
                 return Sc(True, 'bool')
-            d.retain(pred, force=(kind == 'retain_force_replace'))
-            if kind == 'retain_force_replace' and 'e' in state:
+            d.retain(pred, force=kind.startswith('retain_force'))
+            if kind.startswith('retain_force') and 'e' in state:
                 orc.entries.remove(state['e'])
         elif kind in ('retain', 'retain_force'):
             # the predicate's answers are symbolic: one fresh Boolean per invocation
@@ -1057,11 +1078,31 @@ class Runner:
     def lookups_agree(self, it, d: MapDriver, orc: Oracle, handed):
         """get() of every stored key finds its entry; comparisons per lookup stay logarithmic in tree bins (C06)"""
         env = it.env
+        bins = d.bins() or []
+        tree_bound = None
+        if len(bins) >= 64 and len(orc.entries) >= 8 and any(b is not None and getattr(b, 'variant', None) == 'Tree' for b in bins):
+            tree_bound = 4 * math.ceil(math.log2(len(orc.entries) + 1)) + 2
         for e in list(orc.entries):
             probe = Tok('K', e.ktok.val, 'probe')
-            c0 = it.modelled.get('<Q as Ord>::cmp', 0) + it.modelled.get('<K as Ord>::cmp', 0) + it.modelled.get('<K as PartialEq>::eq', 0) + it.modelled.get('<Q as PartialEq>::eq', 0)
+            c0 = key_comparisons(it)
             r = d.get(probe)
-            c1 = it.modelled.get('<Q as Ord>::cmp', 0) + it.modelled.get('<K as Ord>::cmp', 0) + it.modelled.get('<K as PartialEq>::eq', 0) + it.modelled.get('<Q as PartialEq>::eq', 0)
+            c1 = key_comparisons(it)
             if r is None or r.id != e.vtok.id:
                 raise Mismatch('at quiescence get(%r) returns %r, the reference holds %r' % (e.ktok, r, e.vtok))
             self.cmp_max = max(self.cmp_max, c1 - c0)
+            if tree_bound is not None and c1 - c0 > tree_bound:
+                raise Mismatch('quiescence: tree lookup cost: get(%r) (present) needed %d key comparisons in a map of %d entries, bound 4*ceil(log2(n+1))+2 = %d' % (e.ktok, c1 - c0, len(orc.entries), tree_bound))
+        # absent keys cost O(log n) as well (C06): probes outside the key universe, in every hash class of the scenario
+        if tree_bound is not None:
+            nodes = len(orc.entries)
+            bound = tree_bound
+            for pk in (250, 251, 252, 253):
+                probe = Tok('K', pk, 'absent-probe')
+                c0 = key_comparisons(it)
+                r = d.get(probe)
+                c = key_comparisons(it) - c0
+                if r is not None:
+                    raise Mismatch('get of the absent key %d returns %r' % (pk, r))
+                self.cmp_absent_max = max(getattr(self, 'cmp_absent_max', 0), c)
+                if c > bound:
+                    raise Mismatch('quiescence: tree lookup cost: get(%d) (absent) needed %d key comparisons in a map of %d colliding entries, bound 4*ceil(log2(n+1))+2 = %d' % (pk, c, nodes, bound))
